@@ -520,6 +520,23 @@ def _process_internal_events_without_default_matchers(
         # Start new flow state instance if flow exists
         flow_id = event.arguments["flow_id"]
         if flow_id in state.flow_configs and flow_id != "main":
+            source_flow = state.flow_states[event.arguments["source_flow_instance_uid"]]
+            is_activated_child_flow = flow_id == source_flow.flow_id
+            if _is_done_flow(source_flow) and not (
+                is_activated_child_flow and source_flow.activated > 0
+            ):
+                # The flow that requested the start has ended while the event was queued
+                # (e.g. it was aborted in the same processing step). Nothing could stop the
+                # new instance anymore, so the request ends with its source. Only an activated
+                # flow restarts from an ended instance, as long as it is still activated.
+                log.info(
+                    "Ignoring start of flow '%s': source flow '%s' has already ended",
+                    flow_id,
+                    source_flow.uid,
+                )
+                handled_event_loops.add("all_loops")
+                return handled_event_loops
+
             started_instance = None
             if (
                 event.arguments.get("activated", None)
@@ -529,12 +546,6 @@ def _process_internal_events_without_default_matchers(
                 assert isinstance(event, InternalEvent)
                 started_instance = _get_reference_activated_flow_instance(state, event)
 
-            is_activated_child_flow = (
-                flow_id
-                == state.flow_states[
-                    event.arguments["source_flow_instance_uid"]
-                ].flow_id
-            )
             if started_instance and not is_activated_child_flow:
                 # Activate a flow that already has been activated
 
